@@ -40,7 +40,7 @@ CORE = ["initialize", "ping", "tools/list", "tools/call", "resources/list", "res
 RANDOM_METHODS = ["", " ", "nope", "other/only", "tools/call/extra", "rpc.internal", "TOOLS/LIST", "ünï/codé", "notifications/", "a" * 200, "tools\ncall", "tools/\ud83d", "\udc00"]
 IDS = [0, 1, -5, 2 ** 53 + 1, 10 ** 30, "", "abc", "0", "id with space", "ü", "x" * 100]
 BEHAV = ["ok_str", "ok_dict", "ok_list", "ok_none", "raise_value", "raise_key", "raise_runtime", "raise_type", "nonsense_obj", "nonsense_set",
-         "nonsense_badstr", "sleep_ok", "sleep_raise", "raise_empty", "raise_assert", "raise_notimpl", "raise_unprintable", "raise_surrogate", "raise_code_int", "raise_code_str", "raise_code_none"]
+         "nonsense_badstr", "sleep_ok", "sleep_raise", "raise_empty", "raise_assert", "raise_notimpl", "raise_unprintable", "raise_surrogate", "raise_code_int", "raise_code_str", "raise_code_none", "ok_cyclic_list"]
 
 
 def _params_for(method, rng):
@@ -178,6 +178,12 @@ def execute(scn: dict) -> dict:
             if kind == "raise_unprintable":
                 st["handler_faults"] += 1
                 raise _Unprintable()
+            if kind == "ok_cyclic_list":
+                # a result that contains itself (a buggy tool): formatting it cannot succeed, the request still has to be answered
+                loop_ = ["head"]
+                loop_.append(loop_)
+                st["handler_faults"] += 1
+                return loop_
             if kind in ("raise_code_int", "raise_code_str", "raise_code_none"):
                 # exceptions of other libraries that happen to have a `code` attribute (urllib's HTTPError: int, API clients: str or None)
                 st["handler_faults"] += 1
@@ -307,7 +313,31 @@ def execute(scn: dict) -> dict:
                         await anyio.sleep(ticks(m["gap"]))
                     tg.start_soon(dispatch_cancellable if m.get("cancel_after") is not None else dispatch, k, m, name=f"dispatch-{k}")
 
-    info = run_sim(main, max_steps=200_000, max_vtime=1000.0)
+    cyclic = any(m.get("behav") == "ok_cyclic_list" for m in scn["msgs"])
+    if cyclic:
+        # a step that never yields cannot be bounded by the simulator's own caps: a real-time watchdog (only ever fires on a stuck step)
+        import signal
+
+        class _StuckStep(BaseException):
+            pass
+
+        def _on_alarm(signum, frame):
+            raise _StuckStep()
+        old_handler = signal.signal(signal.SIGALRM, _on_alarm)
+        signal.setitimer(signal.ITIMER_REAL, 20.0)
+        try:
+            info = run_sim(main, max_steps=200_000, max_vtime=1000.0)
+        except _StuckStep:
+            signal.setitimer(signal.ITIMER_REAL, 0)
+            signal.signal(signal.SIGALRM, old_handler)
+            return {"violations": [{"cls": "C08/request-unanswered", "sig": "C08/request-unanswered:dispatch-never-returned:busy-step",
+                                    "msg": "a dispatch step ran for 20 s of real time without yielding (a tool result containing itself): no response, and the whole server is stuck"}],
+                    "digest": "stuck", "isig": "stuck", "faults": {}, "probes": {}, "vtime": 0.0, "steps": 0, "harness": [], "nontrivial": True, "history": None}
+        finally:
+            signal.setitimer(signal.ITIMER_REAL, 0)
+            signal.signal(signal.SIGALRM, old_handler)
+    else:
+        info = run_sim(main, max_steps=200_000, max_vtime=1000.0)
     sim = info.sim
     out = {"violations": [], "digest": sim.digest(), "isig": sim.isig(), "faults": dict(sim.faults),
            "probes": dict(sim.probes), "vtime": info.vtime, "steps": info.steps, "harness": list(sim.harness_errors),
@@ -422,7 +452,7 @@ def execute(scn: dict) -> dict:
                 exp = {-32602, -32603}
             else:
                 b = m["behav"]
-                if b.startswith("raise") or b == "sleep_raise" or b == "nonsense_badstr":
+                if b.startswith("raise") or b in ("sleep_raise", "nonsense_badstr", "ok_cyclic_list"):
                     exp = {-32603}
                 else:
                     exp = {"result"}
@@ -441,7 +471,9 @@ def execute(scn: dict) -> dict:
                 exp = {-32603}
             else:
                 b = m["behav"]
-                exp = {-32603} if (b.startswith("raise") or b == "sleep_raise" or b == "nonsense_badstr") else {"result"}
+                exp = {-32603} if (b.startswith("raise") or b in ("sleep_raise", "nonsense_badstr")) else {"result"}
+                if b == "ok_cyclic_list":
+                    exp = {"result", -32603}   # a resource's content is only turned into text: either outcome answers the request
         actual = "result" if err is None else code
         if "any" not in exp and actual not in exp:
             V("wrong-class", f"{method if method in registered else mclass}:got={actual}:want={'/'.join(str(x) for x in sorted(exp, key=str))}",
